@@ -385,7 +385,7 @@ func TestC28(t *testing.T) {
 	p := &prop[c28Case]{
 		ID:   "C28",
 		Rule: "60% single names: identifiers matching the tm lexer's ID rule (letters, digits, '_' and inner '-', 1..7 chars) or quoted ids '...' of 0..5 atoms (ASCII punctuation, letters, digits, control chars, backslash escapes, non-ASCII BMP and astral runes), each converted with all four ident styles and checked to be non-empty, ASCII [A-Za-z_][A-Za-z0-9_]*, ident.IsValid and in the requested casing; 40% grammars declaring 1..4 terminals and 1..3 nonterminals where names are derived from each other to collide ('-' vs '_', case variants, '+' vs plus, the derived spellings xopt / x_list / x_optlist), half of them with symbols the compiler derives itself (an optional terminal, a group list, a mid-rule action, a `+` list in one rule; a templated nonterminal whose instance name base_F is spelled like a terminal), compiled with compiler.Compile: accepted grammars must give every symbol a non-empty valid identifier and pairwise distinct identifiers. Non-trivial: quoted name with >=2 atoms or id with '_', '-' or a digit; grammar with >=3 symbols or a reported collision. Distinct by name / grammar text.",
-		Quick: 100000, Thorough: 1000000,
+		Quick: 100000, Thorough: 6000000,
 		Gen:   c28Gen,
 		Check: c28Check,
 		Pre: func(r *ev.Recorder, run func(c c28Case) *Failure) *Failure {
